@@ -37,7 +37,7 @@ CHECKS = {
    text="Seeded search over generated drivers and loop bodies (and, one run in four, loop bodies of map operations on the C13 map drivers of every key kind followed by 'discard every map'); the oracle is exact equality of live blocks and live bytes at the end of every iteration (the reachable state is identical by construction) plus a no-persistent-growth check of the real heap extent. No fault or schedule is injected: this property has no such dimension, the simulator contributes the observation point and the seeded histories. Evidence, not proof.",
    note="loop bodies are sequences of driver operations; acyclicity is guaranteed by the generator's level order and rank guard, not checked at run time", ref="DESIGN.md section 4 C12"),
  "C13": dict(level="exploration", technique="deterministic simulation of the allocator under compiled Wa map drivers: generated drivers per key kind x value kind compiled by the real pipeline, seeded operation histories checked step by step against a Go map reference model, executed under plain and under seeded allocator fault modes (poison on free, dirty fresh memory, immediate reuse, quarantine, scattered placement) with double-free / zeroing / write-after-free monitors; shrunk replayable tapes",
-   text="Model-based seeded search: every put/overwrite/get/comma-ok/delete/len/range/alias result of the real runtime map (9 key kinds x 4 value kinds) is compared with a Go map model, on histories with ascending/descending/delete-in-order/churn phases and key pools from 2 to 2000, first on the plain allocator and again under an injected allocator fault mode that makes stale tree-node pointers visible. Evidence, not proof.",
+   text="Model-based seeded search: every put/overwrite/get/comma-ok/delete/len/range/alias result of the real runtime map (19 key kinds - small and range-spanning integers, valid and invalid-UTF-8 strings, floats, bools, structs, separately allocated and same-allocation pointers, interfaces with mixed dynamic types - x 4 value kinds; operations include nested ranges and ranges that insert or delete while walking) is compared with a Go map model, on histories with ascending/descending/delete-in-order/churn phases and key pools from 2 to 2000, first on the plain allocator and again under an injected allocator fault mode that makes stale tree-node pointers visible. Evidence, not proof.",
    note="trusts the Go model and the key/value encodings mirrored in Go; NaN keys excluded; iteration order not compared; the allocator seam is a WAT text rewrite executed by the repository's own assembler and wazero", ref="DESIGN.md section 4 C13"),
  "C21": dict(level="exploration", technique="deterministic whole-system simulation of the language server inside a testing/synctest bubble: real LSPServer.Run, handler chain, jsonrpc2 stream/connection and fakenet feeders; simulated editor, blocking stdin pipe (split deliveries, short reads, cut inside a message) and a seeded token scheduler that decides at every statement of the lsp/jsonrpc2/fakenet packages (AST-inserted yields, simulator-aware mutexes, wrapped go statements) which goroutine runs next; oracle = editor model equality at drain points; shrunk replayable tapes",
    text="Seeded search over editing sessions (full/incremental/multi-change/invalid edits over Unicode text with astral characters and CRLF, .wa and .wz documents, requests and cancels in flight), delivery schedules and goroutine interleavings of the real server. At every drain point and at the end, the server's text of each open document must equal the editor model's after all completely delivered notifications; invalid edits and half-delivered notifications must leave it unchanged; Run must return after EOF; no panic or deadlock. 3200 runs were replayed three times across GOMAXPROCS 1/2/4/16 under load with identical event-log digests. Evidence, not proof.",
@@ -52,7 +52,7 @@ CHECKS = {
    text="Seeded search over programs of the repository's corpus, configurations and map-order schedules. Any permutation is a legal Go execution, so a hash difference between the canonical and a permuted order is a real nondeterminism of the compiler; the minimised replay names the source position of the range statement whose order reaches the output. A tape-drawn history probe (compile P, Q, P with the canonical order), repeat compiles in one process and baselines across 16 processes cover state leaking between compiles and sources outside the seam. Evidence, not proof.",
    note="only map iteration order is behind the seam; addresses, goroutines and time are covered by repeat/cross-process comparison only; pointer/interface keys get first-store serial numbers as canonical order (nonreplayable_keys probe must be 0)", ref="DESIGN.md section 4 C27"),
  "C28": dict(level="exploration", technique="deterministic simulation of concurrent API callers: every scenario runs in its own cold OS process under a token scheduler with seeded PCT pre-emption points over ~4600 AST-inserted yield points (every statement touching a package-level variable and every function entry on the API path, 300 rewritten files), simulator-aware Mutex/RWMutex/Once, canonical map order for exact replay, and a vector-clock happens-before monitor over every map access; oracle = each call's result equals its solo result in a cold process; shrunk replayable tapes",
-   text="Seeded search over caller/call mixes (build, run, format, syntax detection on well-typed, ill-typed and unparsable .wa/.wz programs) and pre-emption placements. A call whose result differs from the same call run alone, a panic, a scheduler-detected deadlock, a dead child process, or two happens-before-unordered accesses to one Go map (one a write) by different callers is a violation. The sequential run of each scenario in one process is checked against the solo results as well. Evidence, not proof.",
+   text="Seeded search over caller/call mixes (build, run, format, syntax detection on well-typed, ill-typed and unparsable .wa/.wz programs, with default configurations or clones of one shared base configuration with different targets) and pre-emption placements: uniform over all yields, over the 'interesting' yields (writes of package-level variables, lock boundaries), per interesting site, and systematic lock-window sweeps. A call whose result differs from the same call run alone, a panic, a scheduler-detected deadlock, a dead child process, or two happens-before-unordered accesses to one Go map (one a write) by different callers is a violation. The sequential run of each scenario in one process is checked against the solo results as well. Evidence, not proof.",
    note="interleavings at yield granularity (package-level variable accesses and function entries); the vendored wazero engine and the standard library run atomically; memory-model races on non-map data that change no result are out of reach and are not reported", ref="DESIGN.md section 4 C28"),
 }
 ORDER = ["C10","C11","C12","C13","C21","C25","C26","C27","C28"]
